@@ -485,14 +485,18 @@ pub fn gen_c08(sh: &mut Shards, o: &Opts) -> serde_json::Value {
         let mut tab = BTreeSet::new();
         let mut bad = Vec::new();
         let mut batch: Vec<[u16; 3]> = Vec::with_capacity(301_200);
+        let mut label_k = ci * 3;
         let mut flush = |batch: &mut Vec<[u16; 3]>, tab: &mut BTreeSet<(u8, u16, u16)>, bad: &mut Vec<String>| {
             if batch.is_empty() {
                 return;
             }
+            // the labels the matrix stage does not use rotate from batch to batch over every supported transfer / primaries
+            let cc = Cfg { tc: crate::util::TC_SUP[label_k % 14], cp: crate::util::CP_SUP[label_k % 11], ..c };
+            label_k += 1;
             if st == 8 {
-                roundtrip_collect::<u8>(&c, batch, tab, bad);
+                roundtrip_collect::<u8>(&cc, batch, tab, bad);
             } else {
-                roundtrip_collect::<u16>(&c, batch, tab, bad);
+                roundtrip_collect::<u16>(&cc, batch, tab, bad);
             }
             batch.clear();
         };
@@ -539,6 +543,19 @@ pub fn gen_c08(sh: &mut Shards, o: &Opts) -> serde_json::Value {
             triples += 1;
         }
         flush(&mut batch, &mut tab, &mut bad);
+        // every supported transfer label once more on the anchor cube (foot-room, head-room, nominal limits, extremes)
+        let (la, ca) = (anchors(n, false), anchors(n, true));
+        for _ in 0..14 {
+            for &y in &la {
+                for &u in &ca {
+                    for &v in &ca {
+                        batch.push([y, u, v]);
+                    }
+                }
+            }
+            triples += batch.len() as u64;
+            flush(&mut batch, &mut tab, &mut bad);
+        }
         // emit the table in chunks
         let all: Vec<(u8, u16, u16)> = tab.into_iter().collect();
         rows += all.len() as u64;
